@@ -59,6 +59,24 @@ def _through_tuple_field(pv, payload, dbb, didx):
 
 def arms(pv, op, bb, idx, depth=0):
     """definitions feeding an operand: list of (term, def_bb).  Follows chains of plain copies."""
+    if op["k"] in ("copy", "move") and len(op["place"]["p"]) == 1 and op["place"]["p"][0][0] == "field" and depth <= 6:
+        # `Self { a: x, ..base }` moves `base.f` for the other fields: when `base` is (here) one struct literal - an inlined private
+        # constructor - the operand is the one that literal was built from
+        ds = pv.reaching(op["place"]["l"], bb, idx)
+        hops = 0
+        while len(ds) == 1 and -1 not in ds and hops < 6:
+            _, tbb, tidx, tp = pv._defs[next(iter(ds))]
+            if tidx != "term" and tp["k"] == "use" and tp["op"]["k"] in ("copy", "move") and not tp["op"]["place"]["p"]:
+                ds = pv.reaching(tp["op"]["place"]["l"], tbb, tidx)      # `base = move tmp` (the return slot of an inlined helper)
+                hops += 1
+                continue
+            break
+        if len(ds) == 1 and -1 not in ds:
+            _, tbb, tidx, tp = pv._defs[next(iter(ds))]
+            fi = op["place"]["p"][0][1]
+            if tidx != "term" and tp["k"] == "aggr" and tp.get("kind") != "tuple" and isinstance(fi, int) and fi < len(tp["ops"]) \
+                    and len(tp.get("fields", [])) == len(tp["ops"]):
+                return arms(pv, tp["ops"][fi], tbb, tidx, depth + 1)
     if op["k"] not in ("copy", "move") or op["place"]["p"] or depth > 6:
         return [(pv.operand_term(op, bb, idx), bb)]
     l = op["place"]["l"]
@@ -779,6 +797,14 @@ def apply_fn(prog, fterm, args):
             rt0 = Prov(f0).return_term()
             if not any(isinstance(x, tuple) and x and x[0] in ("param", "loop", "undef", "phi") for x in subterms(rt0)):
                 return rt0
+        if f0 is not None and args and f0.arg_count == len(args) and f0.blocks and prog.is_private_helper(fterm[2]):
+            # a private constructor used as a function value (`.map(Self::from_header)`): the struct literal it returns, with the
+            # arguments in place of its parameters - the same value `.map(|h| Self { .. })` denotes
+            pv0 = Prov(f0)
+            rt0 = pv0.return_term()
+            if rt0[0] == "aggr" and rt0[1] in prog.adts and not pv0.effects() \
+                    and not any(isinstance(x, tuple) and x and x[0] in ("loop", "undef", "phi") for x in subterms(rt0)):
+                return subst_params(rt0, list(args))
         if fterm[2] in prog.fns or fterm[2].startswith("<"):
             # a named crate function used as a function value (`o.map(Value::try_as_bytes)`): the call it stands for
             return ("call", fterm[2], tuple(args), ("<fn-item>", fterm[1]))
